@@ -18,11 +18,14 @@ package c08
 import (
 	"bytes"
 	"encoding/json"
+	"errors"
 	"fmt"
 	"reflect"
 	"sort"
 	"strconv"
 	"strings"
+	"time"
+	"unicode/utf8"
 
 	"github.com/open2b/scriggo"
 	"github.com/open2b/scriggo/native"
@@ -223,6 +226,30 @@ func (prop) Drive(d *core.Driver) error {
 		}
 		add("fixed-time", caseData{Type: TDesc{K: "time"}, Values: vals})
 	}
+	{
+		// nil byte slices at the top level and nested; nil pointers to a type whose
+		// JS/JSON methods have value receivers; bytes that are not UTF-8 in strings and keys
+		u8, jser := TDesc{K: "uint8"}, TDesc{K: "named", Name: "JSer"}
+		bs := TDesc{K: "slice", E: &u8}
+		pj := TDesc{K: "ptr", E: &jser}
+		anyT, strT, intT := TDesc{K: "any"}, TDesc{K: "string"}, TDesc{K: "int"}
+		add("fixed-nil-bytes", caseData{Type: TDesc{K: "array", N: 2, E: &bs}, Values: []any{[]any{[]any{"1"}, nil}, []any{nil, []any{}}}})
+		add("fixed-nil-bytes-top", caseData{Type: bs, Values: []any{nil, []any{}, []any{"0", "255"}}})
+		add("fixed-nil-jser", caseData{Type: pj, Values: []any{nil, []any{[]any{"7"}}}})
+		add("fixed-nil-jser-in-any", caseData{Type: TDesc{K: "slice", E: &anyT}, Values: []any{
+			[]any{map[string]any{"t": pj.String(), "v": nil}, map[string]any{"t": jser.String(), "v": []any{"1"}}, map[string]any{"t": pj.String(), "v": []any{[]any{"2"}}}},
+		}})
+		add("fixed-nil-jser-in-slice", caseData{Type: TDesc{K: "slice", E: &pj}, Values: []any{[]any{[]any{[]any{"1"}}, nil}}})
+		zt := timeDesc(time.Time{})
+		t20 := timeDesc(time.Date(2020, 1, 2, 3, 4, 5, 0, time.UTC))
+		add("fixed-tag-options", caseData{Type: TDesc{K: "named", Name: "Opts"}, Values: []any{
+			[]any{"", "0", "0", false, "0", nil, nil, "", "0", zt, []any{"0", ""}, nil, nil, nil, "0", "", false, "0"},
+			[]any{"s<'", "4", "1.5", true, "7", []any{"5"}, []any{"1"}, "m", "3", t20, []any{"1", "b"}, []any{"2"}, []any{}, []any{"9"}, "8", "x", true, "1"},
+		}})
+		add("fixed-invalid-utf8-key", caseData{Type: TDesc{K: "map", Key: &strT, E: &intT}, Values: []any{
+			[]any{[]any{stringDesc("\xff"), "1"}, []any{"a", "2"}}, []any{[]any{stringDesc("a\xe2\x82"), "1"}},
+		}})
+	}
 	// (b) random cases
 	n := d.N(600, 36000)
 	for i := 0; i < n; i++ {
@@ -260,6 +287,12 @@ func contextNames() []string {
 }
 
 // ---- worker ----
+
+// ECMAScript source text is a sequence of Unicode code points and JSON text is
+// UTF-8 (RFC 8259, 8.1): bytes that are not UTF-8 are neither; what a consumer
+// makes of them depends on its decoder (one U+FFFD per byte, or per maximal
+// subpart as browsers do), so the literal no longer denotes one value.
+var errNotUTF8 = errors.New("the rendering is not valid UTF-8: not source text / JSON text, and the value a consumer reads depends on how its decoder replaces the invalid bytes (encoding/json writes \\ufffd)")
 
 type templates struct {
 	html, md, js, json *scriggo.Template
@@ -388,6 +421,10 @@ func (st *state) oneValue(ts *templates, cd caseData, rv reflect.Value, vd any) 
 	judgeJS := func(ctx, r string) {
 		st.evals++
 		st.counts["js_renderings"]++
+		if !utf8.ValidString(r) {
+			st.violation(ctx, cd.Type, vd, rv, r, errNotUTF8)
+			return
+		}
 		jv, err := jsvalue.Parse(r)
 		if err != nil {
 			st.violation(ctx, cd.Type, vd, rv, r, fmt.Errorf("not a valid JavaScript literal expression: %v", err))
@@ -402,6 +439,10 @@ func (st *state) oneValue(ts *templates, cd caseData, rv reflect.Value, vd any) 
 	judgeJSON := func(ctx, r string) {
 		st.evals++
 		st.counts["json_renderings"]++
+		if !utf8.ValidString(r) {
+			st.violation(ctx, cd.Type, vd, rv, r, errNotUTF8)
+			return
+		}
 		compared, err := checkJSON(rv, r)
 		if err != nil {
 			st.violation(ctx, cd.Type, vd, rv, r, err)
